@@ -117,11 +117,16 @@ def eval_part(part, binary, inputs, work, tag):
 def shrink_failure(part, binary, inp, work, kind, rounds=12):
     """greedy one-step reduction while the same kind of failure persists"""
     cur = inp
+    t_end = time.time() + float(os.environ.get("VERIF_SHRINK_BUDGET_S", "150"))
     for r in range(rounds):
+        if time.time() > t_end:
+            C.log("shrink: time budget used up after %d rounds" % r)
+            break
         cands = part.shrink(cur)
         if not cands:
             break
-        cands = cands[:200]
+        # large inputs are expensive to evaluate: fewer candidates per round
+        cands = cands[:200 if len(json.dumps(cur)) < 2000 else 24]
         try:
             ev = eval_part(part, binary, [{"input": c} for c in cands], work, "shr%d" % r)
         except Exception as e:
